@@ -154,6 +154,12 @@ try:
 except ImportError:
     pass
 
+try:
+    import libhost_c19  # C19: every path helper on the sync/async client CLASS and INSTANCE, positional and keyword arguments
+    OPS.update(libhost_c19.OPS)
+except ImportError:
+    pass
+
 
 def main():
     ops = json.loads(sys.stdin.read())
